@@ -18,6 +18,7 @@ PROPS = {
             {"mode": "nofault", "quick": {"runs": 1500}, "thorough": {"runs": 60000}},
             {"mode": "workload-R", "quick": {"runs": 2000}, "thorough": {"runs": 100000}},
             {"mode": "nofault-R", "quick": {"runs": 1000}, "thorough": {"runs": 50000}},
+            {"mode": "directed", "quick": {"runs": 64}, "thorough": {"runs": 64}},
         ],
         "rule": ("each evaluation is one simulated run: 2-6 generated transaction programs (optimistic/pessimistic; get, batch-get, "
                  "iter, reverse iter, set, insert, delete, lock-keys, commit/rollback) on 1-3 KVStore clients over 1-3 stores and 1-4 regions, "
@@ -41,6 +42,7 @@ PROPS = {
             {"mode": "crashfaults", "quick": {"runs": 35 * 40}, "thorough": {"runs": 35 * 3000}},
             {"mode": "crash-R", "quick": {"runs": 1400}, "thorough": {"runs": 105000}},
             {"mode": "crashfaults-R", "quick": {"runs": 700}, "thorough": {"runs": 70000}},
+            {"mode": "directed", "quick": {"runs": 64}, "thorough": {"runs": 64}},
         ],
         "rule": ("run index = shape x position: for every generated small transaction shape (1-4 keys over 1-3 regions, put/delete/insert/"
                  "lock-only, optimistic/pessimistic, with sampled companions: seed writer, readers, conflicting writer, split) the committing "
@@ -59,6 +61,7 @@ PROPS = {
         "modes": [
             {"mode": "faults", "quick": {"runs": 200 * 12}, "thorough": {"runs": 200 * 600}},
             {"mode": "faults-R", "quick": {"runs": 1600}, "thorough": {"runs": 100000}},
+            {"mode": "directed", "quick": {"runs": 64}, "thorough": {"runs": 64}},
         ],
         "rule": ("run index = shape x fault placement: per shape every single fault from {drop request, drop response (immediate / time-out), "
                  "NotLeader, EpochNotMatch, ServerIsBusy, StaleCommand, region split, leader move, multi-second stall (lock outlives its ttl, "
@@ -112,6 +115,7 @@ PROPS = {
             {"mode": "ryw", "quick": {"runs": 3000}, "thorough": {"runs": 120000}},
             {"mode": "workload", "quick": {"runs": 1000}, "thorough": {"runs": 40000}},
             {"mode": "ryw-R", "quick": {"runs": 1000}, "thorough": {"runs": 50000}},
+            {"mode": "directed", "quick": {"runs": 64}, "thorough": {"runs": 64}},
         ],
         "rule": ("mode ryw: a preloading transaction, 1-2 transactions of 3-14 steps with savepoints, 0-2 concurrent committers, region errors / splits / merges / leader moves; "
                  "mode workload: the C01 mixed workload (reads of own writes); non-trivial = at least one transaction ended; distinct = canonical RPC traces"),
